@@ -255,10 +255,12 @@ def stepB (b : BState) (line : String) : Option BState :=
     let b := b.put ("fs " ++ showFs pie.fs)
     let b := b.puts ((dumpStore pie.store).map ("st " ++ ·))
     pure { b with sess := none, dead := false, pie := pie }
-  | "clean" :: ts => do
-    let ts ← natList ts
+  | "cleanknown" :: [] | "cleannodes" :: [] | "clean" :: _ => do
+    let ts ← if toks == ["cleanknown"] then some (knownTasks b.pie.store)
+             else if toks == ["cleannodes"] then some (nodeTasks b.pie.store) else natList (toks.drop 1)
     if b.sess.isSome || b.dead then none else
     let b := b.put s!"op {line}"
+    let b := b.put ("cl roots [" ++ ",".intercalate (ts.map toString) ++ "]")
     let (s, r) := cleanBuild stdSem (body b) FUEL b.pie.fs ts
     let execd := s.trace.filterMap fun e => match e with | .executeStart t => some (toString t) | _ => none
     let b := b.put ("cl exec [" ++ ",".intercalate execd ++ "]")
